@@ -13,7 +13,8 @@ Driver "history" - case:
   ops (k, j index the relays of the document being edited, modulo its length):
    ["join", k]  k-th pool relay not currently listed joins (with its pool attributes)
    ["leave", k] (the last relay may leave: the next document is then empty)   ["clear"] every relay leaves
-   ["flag", k, f]  toggle KNOWN_FLAGS[f]   (Running is never removed: Tor lists only running relays)
+   ["flag", k, f]  toggle KNOWN_FLAGS[f]   (Running is never toggled off)   ["noflags", k] the relay's flag list
+                   becomes empty (line "s " with the blank)
    ["v6", k, [a-line values]]   ["bw", k, n|null]   ["policy", k, text|null]   (w and p lines are independent)
    ["nick", k, name]   ["nickof", k, j]  (collide with relay j's nickname)
    ["addr", k, ip, orport, dirport]   ["desc", k, digest-hex, published]
@@ -47,7 +48,7 @@ RULE = ("Hypothesis-generated consensus histories: a pool of 1..8 relays (random
         "identities, nicknames drawn from a small set so duplicates are common, flag sets incl. "
         "Guard/Authority/Named/Exit/Fast, 0..2 'a' lines, optional 'w Bandwidth=', optional 'p', each present or "
         "absent on its own) and 1..6 documents, each an edit of the previous one (join/leave down to an empty "
-        "document and back, flag toggles, IPv6 set/cleared, "
+        "document and back, flag toggles down to an empty flag list ('s ' line), IPv6 set/cleared, "
         "bandwidth changed or w line dropped, nickname changed or made to collide, address/descriptor "
         "change); document 1 is served as the GETINFO ns/all data block of a real TorState bootstrap, "
         "the others as 650+NEWCONSENSUS events, optionally delivered in small chunks; in a quarter of the histories "
@@ -66,8 +67,9 @@ ASSUMPTIONS = [
     "'r nick id64 digest64 date time ip orport dirport', then 'a' lines, 's', optional 'w Bandwidth=N[ Unmeasured=1]', "
     "optional 'p' (dir-spec 3.4.1 item order; w and p are each 'at most once' and independent, so an entry may have "
     "a p line without a w line); entries sorted by identity; an identity at most once per document",
-    "every listed relay has at least the Running flag: dir-spec has relays that are not Running left out of the "
-    "consensus, so the bare line 's' (no flag at all, which Tor would write without a trailing blank) is not generated",
+    "a relay's flag list may become empty; it is then written as dir-spec's grammar has it, 's' SP Flags with Flags "
+    "empty = 's ' with the blank; only the bare line 's' without the blank (which no dir-spec production yields) is "
+    "not generated",
     "any document, the initial ns/all listing as well as a replacement consensus, may list no relay at all; the "
     "empty NEWCONSENSUS event is '650+NEWCONSENSUS' / '.' / '650 OK'",
     "nicknames are 1..19 alphanumerics (dir-spec); flags come from Tor's flag vocabulary plus Named/Unnamed",
@@ -115,7 +117,7 @@ IDX = {f: i for i, f in enumerate(cr.KNOWN_FLAGS)}
 # driver is the readable record.  fuzz/c16_atheris.py feeds the same functions from fuzzer bytes.
 
 OP_KINDS = ["join", "leave", "leave", "flag", "flag", "flag", "v6", "v6", "bw", "bw", "policy", "nick", "nickof",
-            "addr", "desc", "clear"]
+            "addr", "desc", "clear", "noflags"]
 CASE_VERSION = 2        # see build_documents: version-1 cases (older replays) keep their original meaning
 FAV_FLAGS = ["Guard", "Guard", "Authority", "Authority", "Named", "Exit", "Fast"]
 BW_TABLE = [0, 1, 20, 166, 51500, 518000, 10000000, 2 ** 31 - 1]
@@ -211,7 +213,7 @@ def make_op(kind, k, x):
     k = k % 8
     if kind == "clear":
         return [kind]
-    if kind in ("join", "leave"):
+    if kind in ("join", "leave", "noflags"):
         return [kind, k]
     if kind == "flag":
         if x & 1:
@@ -378,6 +380,8 @@ def _apply(op, live, pool, legacy=False):
                 r["flags"].remove(f)
         else:
             r["flags"].append(f)
+    elif kind == "noflags":
+        r["flags"] = []             # rendered as "s " (with the blank): dir-spec's Flags may be empty
     elif kind == "v6":
         r["a"] = list(op[2])
     elif kind == "bw":
@@ -758,6 +762,10 @@ def _classify(res, case, docs, views):
                 res.label("authority-flag-lost")
             if a["flags"] != b["flags"]:
                 res.label("flags-changed")
+            if a["flags"] and not b["flags"]:
+                res.label("all-flags-lost")
+                if a["guard"] or a["authority"]:
+                    res.label("guard-or-authority-loses-all-flags")
             if a["name"] != b["name"]:
                 res.label("nickname-changed")
                 if not b["name_unique"]:
@@ -960,6 +968,9 @@ MUTANTS = [
      "        # XXX why are we ever getting this with 0 data?\n        if len(data):",
      "        if self.protocol.post_bootstrap.called and not self.post_bootstrap.called:\n            return\n"
      "        # XXX why are we ever getting this with 0 data?\n        if len(data):"),
+    ("empty-flag-list-keeps-old-flags", "txtorcon/torstate.py",
+     "        router.flags = kw.get('flags', [])",
+     "        if kw.get('flags'):\n            router.flags = kw['flags']"),
     ("p-line-not-optional", "txtorcon/_microdesc_parser.py",
      "        waiting_p.add_transition(Transition(waiting_s, lambda x: x.startswith('r '), self._router_begin))"
      "  # \"p\" lines are optional\n", ""),
